@@ -15,6 +15,10 @@ pub fn run(sh: &mut Shell, cl: &CommandLine, cmd: &Command,
         return cr;
     }
 
+    // update status of jobs if any (as `jobs` does), so that status changes
+    // which are still parked do not get applied after the job is resumed
+    jobc::try_wait_bg_jobs(sh, false, false);
+
     let mut job_id = -1;
     if tokens.len() == 1 {
         if let Some((gid, _)) = sh.jobs.iter().next() {
